@@ -526,13 +526,19 @@ class Context:
             if not args:
                 return float("inf")
             nums = [to_number(a) for a in args]
-            return min(nums)
+            if any(math.isnan(n) for n in nums):
+                return float("nan")
+            # -0 is smaller than +0
+            return min(nums, key=lambda n: (n, math.copysign(1, n)))
 
         def max_fn(*args):
             if not args:
                 return float("-inf")
             nums = [to_number(a) for a in args]
-            return max(nums)
+            if any(math.isnan(n) for n in nums):
+                return float("nan")
+            # +0 is larger than -0
+            return max(nums, key=lambda n: (n, math.copysign(1, n)))
 
         def pow_fn(*args):
             x = to_number(args[0]) if args else float("nan")
